@@ -49,6 +49,6 @@ Mark == /\ CheckInv("OneRoot", OneRoot) /\ CheckInv("GroupValid", GroupValid)
         /\ CheckInv("EmittedWasFired", EmittedWasFired) /\ CheckInv("NoLostTrigger", NoLostTrigger)
         /\ CheckInv("OneSharePerKey", OneSharePerKey) /\ CheckInv("OnlyGoodFromPeers", OnlyGoodFromPeers)
         /\ CheckInv("TypeOK", TypeOK)
-        /\ HWMark
 ActOK == /\ CheckInv("StoredStable", StoredStableA) /\ CheckInv("RejectKeeps", RejectKeepsA)
+         /\ HWMarkA
 ====
